@@ -29,9 +29,9 @@ TraceStep ==
        \/ ev.op = "has_key" /\ OpHasKey(ev.args[1])
        \/ ev.op = "has_value" /\ OpHasValue(ev.args[1])
        \/ ev.op = "count" /\ OpCount
-       \/ ev.op = "get_keys" /\ OpGetKeys(ev.args[1])
-       \/ ev.op = "get_values" /\ OpGetValues(ev.args[1])
-       \/ ev.op = "get_pairs" /\ OpGetPairs(ev.args[1])
+       \/ ev.op = "get_keys" /\ OpGetKeys(ev.args[1], ev.args[2], ev.args[3])
+       \/ ev.op = "get_values" /\ OpGetValues(ev.args[1], ev.args[2], ev.args[3])
+       \/ ev.op = "get_pairs" /\ OpGetPairs(ev.args[1], ev.args[2], ev.args[3])
        \/ ev.op = "iter_new" /\ OpIterNew
        \/ ev.op = "iter_has_next" /\ OpIterHasNext
        \/ ev.op = "iter_next" /\ OpIterNext
